@@ -261,10 +261,25 @@ fn fixtures(ctx: &Ctx, acc: &mut Acc) {
         boundary.push_str(&format!("{y}-04-05 SELL EDGE 3 @ 12 FEES 1\n{y}-04-06 SELL EDGE 2 @ 13\n"));
     }
     names.push("generated:tax-year-boundaries".to_string());
+    // ledgers without any purchase or sale, and a ledger whose disposal has a repurchase on day 30 and a capital
+    // return in a later tax year
+    let generated: std::collections::BTreeMap<&str, String> = [
+        ("generated:tax-year-boundaries", boundary.clone()),
+        ("generated:dividends-only", "2024-05-01 DIVIDEND VWRL TOTAL 100 USD TAX 5\n2024-08-01 DIVIDEND VWRL TOTAL 30 TAX 0\n".to_string()),
+        ("generated:split-only", "2024-05-01 SPLIT VWRL RATIO 2\n".to_string()),
+        ("generated:day-30-and-later-event", "2023-01-10 BUY ACME 100 @ 10 FEES 1\n2024-02-01 SELL ACME 60 @ 12 FEES 0.5\n2024-03-02 BUY ACME 40 @ 11 FEES 1\n2025-03-01 CAPRETURN ACME 80 TOTAL 200\n2025-06-01 SELL ACME 10 @ 13\n".to_string()),
+    ]
+    .into_iter()
+    .collect();
+    for k in generated.keys() {
+        if !names.iter().any(|n| n == k) {
+            names.push(k.to_string());
+        }
+    }
     let part = names
         .par_iter()
         .fold(Acc::new, |mut acc, name| {
-            let text = if name.starts_with("generated:") { boundary.clone() } else { std::fs::read_to_string(format!("{dir}/{name}.cgt")).unwrap_or_default() };
+            let text = if let Some(t) = generated.get(name.as_str()) { t.clone() } else { std::fs::read_to_string(format!("{dir}/{name}.cgt")).unwrap_or_default() };
             if text.trim().is_empty() || mcx::refparse::parse(&text).map(|t| t.is_empty()).unwrap_or(true) {
                 acc.bump("fixtures:empty-skipped");
                 return acc;
@@ -316,7 +331,15 @@ fn fixtures(ctx: &Ctx, acc: &mut Acc) {
                                     let same_rules = e["matches"].as_array().cloned().unwrap_or_default().iter().zip(d["matches"].as_array().cloned().unwrap_or_default().iter()).all(|(a, b)| {
                                         let ra = a["rule"].as_str().unwrap_or("").replace([' ', '&'], "").to_lowercase();
                                         let rb = b["rule"].as_str().unwrap_or("").to_lowercase();
-                                        (ra == rb || (ra == "bedbreakfast" && rb == "bedandbreakfast")) && a["quantity"] == b["quantity"] && a.get("acquisition_date").and_then(|x| x.as_str()) == b.get("acquisition_date").and_then(|x| x.as_str())
+                                        let pence = |x: &Value| -> Option<rust_decimal::Decimal> {
+                                            use std::str::FromStr;
+                                            x.as_str().and_then(|t| rust_decimal::Decimal::from_str(t).ok()).map(|d| d.round_dp_with_strategy(2, rust_decimal::RoundingStrategy::MidpointAwayFromZero))
+                                        };
+                                        (ra == rb || (ra == "bedbreakfast" && rb == "bedandbreakfast"))
+                                            && a["quantity"] == b["quantity"]
+                                            && a.get("acquisition_date").and_then(|x| x.as_str()) == b.get("acquisition_date").and_then(|x| x.as_str())
+                                            && pence(&a["allowable_cost"]) == pence(&b["allowable_cost"])
+                                            && pence(&a["gain_or_loss"]) == pence(&b["gain_or_loss"])
                                     });
                                     if legs != wl || !same_rules || e["quantity"] != d["quantity"] {
                                         push(&mut acc, "explain-differs-from-report", format!("explain_matching for {} {} lists {:?}, the report lists {:?}", d["date"], d["ticker"], e["matches"], d["matches"]));
